@@ -3,6 +3,7 @@
 package connectconformance
 
 import (
+	"errors"
 	"google.golang.org/protobuf/types/known/anypb"
 	"fmt"
 	"sort"
@@ -777,4 +778,145 @@ func TestVerifC08Exec(t *testing.T) {
 			return cl, marker
 		},
 	})
+}
+
+// ---- the known-failing / known-flaky classification of recorded outcomes follows the patterns ----
+
+type vfC08ClassCase struct {
+	Names    []string `json:"names"`
+	Failing  []string `json:"knownFailing"`
+	Flaky    []string `json:"knownFlaky"`
+	Fails    []bool   `json:"fails"`    // per name: the client's result does not match
+	Sideband []bool   `json:"sideband"` // per name: the reference peer reports feedback after the outcome was recorded
+}
+
+// TestVerifC08Classify: names and pattern sets over a small alphabet; every name gets an outcome (pass or failure) and
+// possibly feedback afterwards. In the report a failing case is "failed (as expected)" iff a known-failing or
+// known-flaky pattern matches its name (reference matcher), a passing case "was expected to fail" iff a known-failing
+// pattern and no known-flaky one matches it, and anything else that failed is FAILED.
+func TestVerifC08Classify(t *testing.T) {
+	verifkit.Run(t, "C08Classify", verifkit.Spec[vfC08ClassCase]{
+		Gen: func(t *rapid.T) vfC08ClassCase {
+			var c vfC08ClassCase
+			seen := map[string]bool{}
+			for i, n := 0, rapid.IntRange(1, 5).Draw(t, "names"); i < n; i++ {
+				k := rapid.IntRange(1, 3).Draw(t, "depth")
+				comps := make([]string, k)
+				for j := range comps {
+					comps[j] = rapid.SampledFrom([]string{"a", "b", "c"}).Draw(t, "comp")
+				}
+				name := strings.Join(comps, "/")
+				if seen[name] {
+					continue
+				}
+				seen[name] = true
+				c.Names = append(c.Names, name)
+				c.Fails = append(c.Fails, rapid.Bool().Draw(t, "fails"))
+				c.Sideband = append(c.Sideband, rapid.IntRange(0, 2).Draw(t, "sideband") == 0)
+			}
+			gen := func(label string) []string {
+				var out []string
+				for i, k := 0, rapid.IntRange(0, 2).Draw(t, label+"-n"); i < k; i++ {
+					var comps []string
+					for _, sc := range strings.Split(rapid.SampledFrom(c.Names).Draw(t, label+"-src"), "/") {
+						switch rapid.IntRange(0, 5).Draw(t, label+"-gen") {
+						case 0:
+							comps = append(comps, "*")
+						case 1:
+							comps = append(comps, "**")
+						default:
+							comps = append(comps, sc)
+						}
+					}
+					out = append(out, strings.Join(comps, "/"))
+				}
+				return out
+			}
+			c.Failing, c.Flaky = gen("failing"), gen("flaky")
+			return c
+		},
+		Check: func(c vfC08ClassCase) error {
+			for _, n := range c.Names {
+				if vfRefAny(c.Failing, n) && vfRefAny(c.Flaky, n) {
+					return nil // rejected before anything runs (C08Run)
+				}
+			}
+			results := newResults(len(c.Names), vfTrieOrEmpty(c.Failing), vfTrieOrEmpty(c.Flaky), nil)
+			for i, n := range c.Names {
+				var err error
+				if c.Fails[i] {
+					err = errors.New("result does not match")
+				}
+				results.setOutcome(n, false, err)
+			}
+			for i, n := range c.Names {
+				if c.Sideband[i] {
+					results.recordSideband(n, "feedback from the reference peer")
+				}
+			}
+			printer := &vfC08Lines{}
+			ok := results.report(printer)
+			out := strings.Join(printer.lines, "\n")
+			wantOK := true
+			for i, n := range c.Names {
+				failed := c.Fails[i] || c.Sideband[i]
+				kf, kfl := vfRefAny(c.Failing, n), vfRefAny(c.Flaky, n)
+				asExpected := strings.Contains(out, "INFO: "+n+" failed (as expected)")
+				hardFail := strings.Contains(out, "FAILED: "+n+":")
+				unexpectedPass := strings.Contains(out, "FAILED: "+n+" was expected to fail but did not")
+				var want string
+				switch {
+				case failed && (kf || kfl):
+					want = "as-expected"
+				case failed:
+					want, wantOK = "failed", false
+				case kf:
+					want, wantOK = "unexpected-pass", false
+				default:
+					want = "pass"
+				}
+				got := "pass"
+				switch {
+				case asExpected:
+					got = "as-expected"
+				case hardFail:
+					got = "failed"
+				case unexpectedPass:
+					got = "unexpected-pass"
+				}
+				if got != want {
+					return verifkit.Violf("classification:"+want+"-reported-"+got, "name %q (fails=%v, feedback afterwards=%v) with known-failing %q (matches: %v) and known-flaky %q (matches: %v) is reported as %s, want %s\noutput:\n%s",
+						n, c.Fails[i], c.Sideband[i], c.Failing, kf, c.Flaky, kfl, got, want, out)
+				}
+			}
+			if ok != wantOK {
+				return verifkit.Violf("classification-verdict", "report() = %v, want %v (names %q fails %v feedback %v failing %q flaky %q)\noutput:\n%s", ok, wantOK, c.Names, c.Fails, c.Sideband, c.Failing, c.Flaky, out)
+			}
+			return nil
+		},
+		Classify: func(c vfC08ClassCase) ([]string, bool) {
+			sb, pat := false, len(c.Failing)+len(c.Flaky) > 0
+			for _, s := range c.Sideband {
+				sb = sb || s
+			}
+			var cl []string
+			if sb {
+				cl = append(cl, "feedback-after-outcome")
+			}
+			if len(c.Flaky) > 0 {
+				cl = append(cl, "known-flaky")
+			}
+			if len(c.Failing) > 0 {
+				cl = append(cl, "known-failing")
+			}
+			return cl, pat
+		},
+	})
+}
+
+type vfC08Lines struct{ lines []string }
+
+func (p *vfC08Lines) Printf(msg string, args ...any) { p.lines = append(p.lines, fmt.Sprintf(msg, args...)) }
+func (p *vfC08Lines) PrefixPrintf(prefix, msg string, args ...any) {
+	p.lines = append(p.lines, prefix+": "+fmt.Sprintf(msg, args...))
 }
